@@ -1234,7 +1234,14 @@ func execC19HalfClose(c *child.Ctx, k proxyCase, cj []byte) {
 	}()
 	if k.StallBytes > 0 {
 		<-sent2
-		sleepTicking(300 * time.Millisecond) // the server gets round to reading only now
+		// the server gets round to reading only when the proxy has finished with the call
+		// (its socket towards the server is no longer in the established state), or after
+		// fifteen seconds if the proxy is waiting for the server
+		port := up.LocalAddr().(*net.TCPAddr).Port
+		for i := 0; i < 150 && socketEstablishedTowards(port); i++ {
+			sleepTicking(100 * time.Millisecond)
+		}
+		sleepTicking(100 * time.Millisecond)
 	}
 	got = append(got, readN(up, len(rest), 20*time.Second, sent2)...)
 	if !p.alive() {
@@ -1372,6 +1379,24 @@ func listedAreRelayedFast(listed [][]byte, baseline []handler.Message, data []by
 	}
 	// the same byte string may occur earlier by coincidence: fall back to the full search
 	return listedAreRelayed(listed, baseline)
+}
+
+// socketEstablishedTowards: is there a local socket that its owner has not closed yet
+// (established, or close-wait) whose peer is 127.0.0.1:port (from /proc/net/tcp)?
+func socketEstablishedTowards(port int) bool {
+	b, err := os.ReadFile("/proc/net/tcp")
+	if err != nil {
+		return false
+	}
+	want := fmt.Sprintf("0100007F:%04X", port)
+	for _, ln := range strings.Split(string(b), "\n") {
+		f := strings.Fields(ln)
+		// 01 = established, 08 = close-wait (the peer has shut down its sending side)
+		if len(f) >= 4 && f[2] == want && (f[3] == "01" || f[3] == "08") {
+			return true
+		}
+	}
+	return false
 }
 
 // sendQueueTowards returns the number of bytes queued in the kernel on the local
